@@ -7,7 +7,9 @@
    dropped), else "file://" with the host dropped; parse_path (file, has_host = false) from the separator on.
    Proved: (a) no drive letter in front of the text, the first segment of the base path is not a normalized drive
    letter: host of the base kept on both sides; (b) the text starts with a Windows drive letter and the host of the
-   base is the empty host: parser.rs drops the host of the base, the Standard keeps it - the same when it is empty. *)
+   base is the empty host: parser.rs drops the host of the base, the Standard keeps it - the same when it is empty;
+   (c) the same dispatch in the file state itself: a text with NO leading separator that starts with a Windows drive
+   letter ("C|/y", "file:C:/y") against a base with the empty host. *)
 From Coq Require Import ZifyBool ZifyN.
 From RU Require Import Base.Prelude Base.Utf8 Base.Utf8Facts Model.AsciiSet Gen.Tables
   Model.PercentEncoding Model.HostT Model.UrlRecord Model.Parser Model.Setters Model.WF Model.Host Model.KnownC08 Model.KnownC01
@@ -519,6 +521,256 @@ Example class_file_one_exclusion_necessary :
   match P None file_base_text, S None file_base_text with
   | POk b, BDone sb =>
       in_class_file_rel_one sb i = false /\ known_c01 (Some b) i = 1
+      /\ match P (Some b) i, S (Some sb) i with
+         | POk u, BDone su => q_href u = [102;105;108;101;58;47;47;47;67;58;47;121] /\ get_href spec_host_serializer su = [102;105;108;101;58;47;47;104;47;67;58;47;121]
+         | _, _ => False end
+  | _, _ => False
+  end.
+Proof. vm_compute. repeat split. Qed.
+
+(* ================= the drive-letter dispatch of the file state (no leading separator) ================= *)
+Lemma swdl_head c t : starts_with_windows_drive_letter (c :: t) = true ->
+  is_sl c = false /\ (c =? 63) = false /\ (c =? 35) = false.
+Proof.
+  unfold starts_with_windows_drive_letter. destruct t as [|b rest]; [discriminate|].
+  cbn [is_windows_drive_letter]. intros H. apply andb_true_iff in H. destruct H as [H _].
+  apply andb_true_iff in H. destruct H as [H _]. unfold is_alpha, is_upper, is_lower in H. unfold is_sl. lia.
+Qed.
+
+Section SpecFileDrive.
+Variable shp : bool -> list N -> option spec_host.
+Variable inp : list N.
+Variable sb : spec_url.
+Hypothesis Hf : list_eqb (su_scheme sb) str_file = true.
+
+Notation RunsB := (Runs shp inp (Some sb)).
+
+Theorem runs_file_drive_g pre u c t : inp = pre ++ c :: t -> (u = empty_url \/ u = u_file0) ->
+  starts_with_windows_drive_letter (c :: t) = true ->
+  RunsB (at_pos StFile pre [] false false false u) (BDone (file_tail (fkeep sb []) (spath_f (c :: t) [] []))).
+Proof.
+  intros Hin Hu Hw. destruct (swdl_head c t Hw) as (Esl & E63 & E35).
+  assert (c :: t <> []) as Hne by discriminate.
+  unfold is_sl in Esl. apply orb_false_iff in Esl. destruct Esl as [E47 E92].
+  eapply (runs_step_stay shp inp (Some sb) StFile pre (c :: t)) with (st' := StPath) (buf' := [])
+    (u' := fkeep sb []); [exact Hin | exact Hne | |].
+  - rewrite (step_unfold shp inp (Some sb) _ pre (c :: t)) by exact Hin. cbn zeta. cbn [hd_error tl].
+    unfold st_file, base_is_file. rewrite Hf. cbn [cis]. rewrite E47, E92, E63, E35. cbn [orb].
+    rewrite Hw. cbn [negb]. cbn [m_url at_pos]. destruct Hu as [->| ->]; reflexivity.
+  - exact (runs_path_f shp inp (Some sb) (c :: t) pre [] false false false (fkeep sb []) [] Hin eq_refl eq_refl).
+Qed.
+
+End SpecFileDrive.
+
+(* the scheme-less reference ("C|/y": with ':' the letter is a scheme) *)
+Theorem spec_file_rel_drive shp sb input c t :
+  spec_clean input = c :: t -> spec_scheme (c :: t) = None -> starts_with_windows_drive_letter (c :: t) = true ->
+  has_opaque_path sb = false -> list_eqb (su_scheme sb) str_file = true ->
+  spec_basic_url_parse shp input (Some sb) = BDone (file_tail (fkeep sb []) (spath_f (c :: t) [] [])).
+Proof.
+  intros Ecl Hs Hw Hop Hf. set (inp := spec_clean input) in *. rewrite <- Ecl in Hs.
+  apply spec_parse_of_runs. fold inp. apply runs_no_scheme; [exact Hs|].
+  eapply (runs_step_stay shp inp (Some sb) StNoScheme [] inp) with (st' := StFile) (buf' := []);
+    [reflexivity | rewrite Ecl; discriminate | |].
+  { rewrite (step_unfold shp inp (Some sb) _ [] inp) by reflexivity. cbn zeta.
+    unfold st_no_scheme. rewrite Hop, Hf. cbn [andb negb]. reflexivity. }
+  exact (runs_file_drive_g shp inp sb Hf [] empty_url c t Ecl (or_introl eq_refl) Hw).
+Qed.
+
+(* "file:" + the text ("file:C:/y", "file:C|/y") *)
+Theorem spec_file_same_drive shp sb input c t :
+  spec_scheme (spec_clean input) = Some (str_file, c :: t) -> starts_with_windows_drive_letter (c :: t) = true ->
+  list_eqb (su_scheme sb) str_file = true ->
+  spec_basic_url_parse shp input (Some sb) = BDone (file_tail (fkeep sb []) (spath_f (c :: t) [] [])).
+Proof.
+  intros Hs Hw Hf. set (inp := spec_clean input) in *.
+  apply spec_parse_of_runs. fold inp.
+  destruct (runs_scheme shp inp (Some sb) str_file (c :: t)
+              (BDone (file_tail (fkeep sb []) (spath_f (c :: t) [] []))) Hs) as (pre & Hin & K).
+  apply K. clear K.
+  apply (runs_scheme_colon_file shp inp (Some sb) pre (c :: t) _ Hin).
+  assert (inp = (pre ++ [58]) ++ c :: t) as Hin1 by (rewrite Hin, <- app_assoc; reflexivity).
+  exact (runs_file_drive_g shp inp sb Hf (pre ++ [58]) u_file0 c t Hin1 (or_intror eq_refl) Hw).
+Qed.
+
+Section ModelFileDrive.
+Variable dbg : bool.
+Variable hp hpo : list N -> result host.
+Variable hd : host -> list N.
+Variable shp : bool -> list N -> option spec_host.
+Variable shs : spec_host -> list N.
+
+(* parser.rs: "file:///" and the path parser on the whole text - the host of the base is dropped *)
+Theorem parse_file_drive b sb l c t :
+  su_host sb = Some SEmpty -> shs SEmpty = [] -> usv_list l -> ntnl l = c :: t ->
+  starts_with_windows_drive_letter (c :: t) = true -> fp_ok false (c :: t) (c :: t) = true ->
+  let su := file_tail (fkeep sb []) (spath_f (c :: t) [] []) in
+  exists u, oob (U32_MAX_P < nlen (ser u)) (parse_file dbg hp hd None CUrlParser STFile (Some b) l) u
+            /\ related dbg shs u su /\ spec_base_ok su = true.
+Proof.
+  intros Eh Hse Hu El Hw Hok su. destruct (swdl_head c t Hw) as (Esl & E63 & E35).
+  assert (su = file_tail (fu u_file0) (spath_f (c :: t) [] [])) as ES by (unfold su, fkeep; rewrite Eh; reflexivity).
+  assert (spec_base_ok su = true) as HBok.
+  { assert (sfile shp u_file0 (c :: t) = Some su) as E by (cbn [sfile]; rewrite Esl, ES; reflexivity).
+    exact (proj1 (sfile_result_ok shp _ su E)). }
+  rewrite <- El in Hok.
+  destruct (file_branch_nohost dbg hp hpo shp shs l (ntnl l) Hu Hok eq_refl Hse) as (u & HO & Ru & _).
+  rewrite El in Ru.
+  exists u. rewrite ES. split; [|split; [exact Ru | rewrite <- ES; exact HBok]].
+  destruct (inp_next_some l c t El) as (l1 & En1 & _ & _).
+  unfold parse_file, inp_split_first. rewrite En1. cbv iota beta.
+  rewrite is_sl_model, Esl, E63, E35. rewrite swdl_segment_spec, El, Hw. cbn [negb]. exact HO.
+Qed.
+
+End ModelFileDrive.
+
+(* ================= the classes ================= *)
+Definition file_drive_ok (sb : spec_url) (R : list N) : bool :=
+  negb (has_opaque_path sb) && list_eqb (su_scheme sb) str_file && host_is_empty sb
+  && starts_with_windows_drive_letter R && fp_ok false R R.
+
+Definition in_class_file_rel_drive (sb : spec_url) (input : list N) : bool :=
+  match spec_scheme (spec_clean input) with None => file_drive_ok sb (spec_clean input) | Some _ => false end.
+Definition in_class_file_same_drive (sb : spec_url) (input : list N) : bool :=
+  match spec_scheme (spec_clean input) with
+  | Some (sch, R) => list_eqb sch str_file && file_drive_ok sb R
+  | None => false
+  end.
+
+Section DriveClass.
+Variable dbg : bool.
+Variable hp hpo : list N -> result host.
+Variable hd : host -> list N.
+Variable shp : bool -> list N -> option spec_host.
+Variable shs : spec_host -> list N.
+Hypothesis Hse : shs SEmpty = [].
+
+Lemma file_drive_ok_facts sb R : file_drive_ok sb R = true ->
+  has_opaque_path sb = false /\ list_eqb (su_scheme sb) str_file = true /\ su_host sb = Some SEmpty
+  /\ starts_with_windows_drive_letter R = true /\ fp_ok false R R = true.
+Proof.
+  unfold file_drive_ok. intros H. apply andb_true_iff in H. destruct H as [H H5]. apply andb_true_iff in H. destruct H as [H H4].
+  apply andb_true_iff in H. destruct H as [H H3]. apply andb_true_iff in H. destruct H as [H1 H2].
+  apply negb_true_iff in H1. repeat split; try assumption.
+  unfold host_is_empty in H3. destruct (su_host sb) as [[| | | |]|]; try discriminate H3. reflexivity.
+Qed.
+
+Theorem class_file_rel_drive input b sb : usv_list input -> related dbg shs b sb ->
+  in_class_file_rel_drive sb input = true ->
+  agree_good dbg shs (parse_url dbg hp hpo hd None (Some b) input) (spec_basic_url_parse shp input (Some sb))
+  /\ (forall su u, spec_basic_url_parse shp input (Some sb) = BDone su -> parse_url dbg hp hpo hd None (Some b) input = POk u ->
+        full_base dbg shs u su).
+Proof.
+  intros Hu R Hc. unfold in_class_file_rel_drive in Hc.
+  destruct (spec_scheme (spec_clean input)) as [?|] eqn:Es; [discriminate Hc|].
+  destruct (file_drive_ok_facts sb _ Hc) as (Hop & Hf & Eh & Hw & Hok).
+  destruct (spec_clean input) as [|c t] eqn:Ecl; [discriminate Hw|].
+  destruct (swdl_head c t Hw) as (Esl & E63 & E35).
+  pose proof (spec_file_rel_drive shp sb input c t Ecl Es Hw Hop Hf) as HS.
+  rewrite spec_clean_is_ntnl_trim in Ecl. set (l := input_new_trim_c0 input) in *.
+  assert (usv_list l) as Hul by exact (usv_trim input Hu).
+  destruct (parse_file_drive dbg hp hpo hd shp shs b sb l c t Eh Hse Hul Ecl Hw Hok) as (u & HO & Ru & Hbo).
+  set (su := file_tail (fkeep sb []) (spath_f (c :: t) [] [])) in *.
+  assert (parse_url dbg hp hpo hd None (Some b) input = parse_file dbg hp hd None CUrlParser STFile (Some b) l) as Epu.
+  { assert (scheme_type_of (b_scheme b) = STFile) as Hst.
+    { rewrite (rel_sch _ _ _ _ R). apply list_eqb_spec in Hf. rewrite Hf. reflexivity. }
+    exact (parse_url_file_rel dbg hp hpo hd b input c t (related_not_cbb dbg shs b sb R Hop) Hst Ecl Es E35). }
+  assert (agree_good dbg shs (parse_url dbg hp hpo hd None (Some b) input) (spec_basic_url_parse shp input (Some sb))) as G.
+  { rewrite HS. apply agree_good_intro; [|intros su' E; inversion E; subst su'; exact Hbo].
+    rewrite Epu. exact (oob_agree dbg shs _ u _ HO Ru). }
+  split; [exact G|]. intros su' u' HS' HM. rewrite HS' in G. rewrite HS in HS'. inversion HS'; subst su'.
+  split; [exact (agree_good_chain dbg shs _ su u' G HM) | exact (one_result_shape sb [] _)].
+Qed.
+
+Theorem class_file_same_drive input b sb : usv_list input -> related dbg shs b sb ->
+  in_class_file_same_drive sb input = true ->
+  agree_good dbg shs (parse_url dbg hp hpo hd None (Some b) input) (spec_basic_url_parse shp input (Some sb))
+  /\ (forall su u, spec_basic_url_parse shp input (Some sb) = BDone su -> parse_url dbg hp hpo hd None (Some b) input = POk u ->
+        full_base dbg shs u su).
+Proof.
+  intros Hu R Hc. unfold in_class_file_same_drive in Hc.
+  destruct (spec_scheme (spec_clean input)) as [[sch R0]|] eqn:Es; [|discriminate Hc].
+  apply andb_true_iff in Hc. destruct Hc as [Hsch Hc]. apply list_eqb_spec in Hsch. subst sch.
+  destruct (file_drive_ok_facts sb _ Hc) as (Hop & Hf & Eh & Hw & Hok).
+  destruct R0 as [|c t]; [discriminate Hw|].
+  pose proof (spec_file_same_drive shp sb input c t Es Hw Hf) as HS.
+  rewrite spec_clean_is_ntnl_trim in Es.
+  destruct (spec_scheme_model _ _ _ Es) as (rem & Hps & Hrem).
+  destruct (parse_scheme_suffix _ _ _ _ Hps) as [pre0 Hpre].
+  assert (usv_list rem) as Hur.
+  { pose proof (usv_trim input Hu) as Ht. rewrite Hpre in Ht. apply usv_app in Ht. tauto. }
+  destruct (parse_file_drive dbg hp hpo hd shp shs b sb rem c t Eh Hse Hur Hrem Hw Hok) as (u & HO & Ru & Hbo).
+  set (su := file_tail (fkeep sb []) (spath_f (c :: t) [] [])) in *.
+  assert (parse_url dbg hp hpo hd None (Some b) input = parse_file dbg hp hd None CUrlParser STFile (Some b) rem) as Epu.
+  { unfold parse_url. rewrite Hps. unfold parse_with_scheme. change (to_u32 (nlen str_file)) with (@POk N 4). cbn [pbind].
+    change (scheme_type_of str_file) with STFile. cbv iota beta.
+    apply list_eqb_spec in Hf. rewrite (rel_sch _ _ _ _ R), Hf. change (list_eqb str_file s_file) with true. reflexivity. }
+  assert (agree_good dbg shs (parse_url dbg hp hpo hd None (Some b) input) (spec_basic_url_parse shp input (Some sb))) as G.
+  { rewrite HS. apply agree_good_intro; [|intros su' E; inversion E; subst su'; exact Hbo].
+    rewrite Epu. exact (oob_agree dbg shs _ u _ HO Ru). }
+  split; [exact G|]. intros su' u' HS' HM. rewrite HS' in G. rewrite HS in HS'. inversion HS'; subst su'.
+  split; [exact (agree_good_chain dbg shs _ su u' G HM) | exact (one_result_shape sb [] _)].
+Qed.
+
+End DriveClass.
+
+Theorem class_file_rel_drive_model dbg idna : forall input b sb,
+  usv_list input -> full_base dbg spec_host_serializer b sb -> in_class_file_rel_drive sb input = true ->
+  agree_good dbg spec_host_serializer
+    (parse_url dbg (host_parse idna) host_parse_opaque host_display None (Some b) input)
+    (spec_basic_url_parse (spec_host_parser idna) input (Some sb))
+  /\ (forall su u, spec_basic_url_parse (spec_host_parser idna) input (Some sb) = BDone su ->
+        parse_url dbg (host_parse idna) host_parse_opaque host_display None (Some b) input = POk u ->
+        full_base dbg spec_host_serializer u su).
+Proof.
+  intros input b sb Hu [[R _] _] Hc. exact (class_file_rel_drive dbg _ _ _ _ _ eq_refl input b sb Hu R Hc).
+Qed.
+
+Theorem class_file_same_drive_model dbg idna : forall input b sb,
+  usv_list input -> full_base dbg spec_host_serializer b sb -> in_class_file_same_drive sb input = true ->
+  agree_good dbg spec_host_serializer
+    (parse_url dbg (host_parse idna) host_parse_opaque host_display None (Some b) input)
+    (spec_basic_url_parse (spec_host_parser idna) input (Some sb))
+  /\ (forall su u, spec_basic_url_parse (spec_host_parser idna) input (Some sb) = BDone su ->
+        parse_url dbg (host_parse idna) host_parse_opaque host_display None (Some b) input = POk u ->
+        full_base dbg spec_host_serializer u su).
+Proof.
+  intros input b sb Hu [[R _] _] Hc. exact (class_file_same_drive dbg _ _ _ _ _ eq_refl input b sb Hu R Hc).
+Qed.
+
+(* non-vacuity: against the parse result of file:///tmp/x (empty host) the references  C|/y  (scheme-less),
+   file:C:/y ,  fIle:c|\z?q  are in the classes (and in class 1 of Known_C01); both sides give file:///C:/y,
+   file:///C:/y, file:///c:/z?q *)
+Example class_file_drive_nonvacuous :
+  let idna := id_idna in
+  let P base i := parse_url true (host_parse idna) host_parse_opaque host_display None base i in
+  let S sbase i := spec_basic_url_parse (spec_host_parser idna) i sbase in
+  let bt := [102;105;108;101;58;47;47;47;116;109;112;47;120] in
+  match P None bt, S None bt with
+  | POk b, BDone sb =>
+      let ok (cls : spec_url -> list N -> bool) i h :=
+        cls sb i = true /\ known_c01 (Some b) i = 1
+        /\ match P (Some b) i, S (Some sb) i with
+           | POk u, BDone su => q_href u = h /\ api_of_model true u = Some (spec_api_list spec_host_serializer su)
+           | _, _ => False end in
+      ok in_class_file_rel_drive [67;124;47;121] [102;105;108;101;58;47;47;47;67;58;47;121]
+      /\ ok in_class_file_same_drive [102;105;108;101;58;67;58;47;121] [102;105;108;101;58;47;47;47;67;58;47;121]
+      /\ ok in_class_file_same_drive [102;73;108;101;58;99;124;92;122;63;113] [102;105;108;101;58;47;47;47;99;58;47;122;63;113]
+  | _, _ => False
+  end.
+Proof. vm_compute. repeat split. Qed.
+
+(* the condition "the host of the base is the empty host" is necessary (F-C01-1 family): against the parse result of
+   file://h/tmp/x the reference  file:C:/y  gives file://h/C:/y in the Standard and file:///C:/y in parser.rs.
+   Replay on the crate: Url::parse("file://h/tmp/x").unwrap().join("file:C:/y") *)
+Example class_file_drive_exclusion_necessary :
+  let idna := id_idna in
+  let P base i := parse_url true (host_parse idna) host_parse_opaque host_display None base i in
+  let S sbase i := spec_basic_url_parse (spec_host_parser idna) i sbase in
+  let i := [102;105;108;101;58;67;58;47;121] in
+  match P None file_base_text, S None file_base_text with
+  | POk b, BDone sb =>
+      in_class_file_same_drive sb i = false /\ known_c01 (Some b) i = 1
       /\ match P (Some b) i, S (Some sb) i with
          | POk u, BDone su => q_href u = [102;105;108;101;58;47;47;47;67;58;47;121] /\ get_href spec_host_serializer su = [102;105;108;101;58;47;47;104;47;67;58;47;121]
          | _, _ => False end
